@@ -1370,6 +1370,12 @@ def e2e_scripts(ctx, impl, funcs, items, d, data, exe, tag):
         p = subprocess.run(["timeout", "60", uft, "record", "--no-pager", "--no-event", "--libmcount-path=" + impl.objdir,
                             "-a", "-S", sc, "-d", data + "-" + lang, exe], capture_output=True, timeout=90, cwd=d)
         runs.append((lang, True, p))
+    # ... and with a time filter that keeps every record out of the data: the script still gets every call, and the
+    # return value it sees must be the function's, not what was left in the buffer
+    p = subprocess.run(["timeout", "60", uft, "record", "--no-pager", "--no-event", "--libmcount-path=" + impl.objdir,
+                        "-a", "-t", "1s", "-S", os.path.join(d, "log.py"), "-d", data + "-t", exe],
+                       capture_output=True, timeout=90, cwd=d)
+    runs.append(("py", True, p))
     out, terms, index = [], [], []
     for lang, rec, p in runs:
         if p.returncode != 0:
@@ -1559,14 +1565,17 @@ def common_meta(ctx):
                 "non-ASCII strings, std::string, pointers to functions, structs by register/stack, %reg and %stack "
                 "addressing, payload totals 1008..1032 around the 1020-byte limit; plus regression cases of the repaired "
                 "defects; plus end-to-end cases: one function of a generated, compiled C program traced with "
-                "`record -a` (specs from DWARF); distinct = distinct (specs, values); non-trivial = at least one value "
-                "is captured")
+                "`record -a` (specs from DWARF); every in-process stream is also read by `uftrace script -S` with a "
+                "python and a lua logging script (typed ctx[\"args\"] / ctx[\"retval\"]), every end-to-end program "
+                "also by `uftrace script` and `uftrace record -S` in both languages; distinct = distinct (specs, "
+                "values); non-trivial = at least one value is captured")
     ctx.trusted = [
         "Coq 8.16.1 kernel incl. vm_compute (no native_compute); axioms: see print_assumptions",
         "hand-written model coq/theories/C09/Model.v (save_to_argbuf, x86_64 mcount_arch_get_arg/retval, payload part "
         "of record_ret_stack, read_task_arg(s), get_argspec_string) and its executable checker ok_call",
         "generated constants coq/theories/Gen/Consts.v (ARGBUF_SIZE, ARG_STR_MAX, RECORD_MAGIC, record bit layout)",
-        "harness/c/mc_harness.c (+ ops ARGFILL/ARGDUMP/ADDR/SADDR/OBJ/DUMPRAW), harness/c/c09_harness.c, vf/mch.py, "
+        "harness/c/mc_harness.c (+ ops ARGFILL/ARGDUMP/ADDR/SADDR/OBJ/DUMPRAW/SPECS/XRF), harness/c/c09_harness.c, vf/mch.py, "
+        "the python/lua logging scripts of props/c09.py and their line parser, "
         "vf/datadir.py (info/task/map/sym files of the synthetic directory), props/c09.py (generator, text splitting "
         "of the replay output at the nested sentinel call)",
     ]
@@ -1576,7 +1585,10 @@ def common_meta(ctx):
         "readable memory; the stack words of the caller are readable",
         "floating point text (\"%#f\"), x87 long double return values, enum names and --auto-args/DWARF specs are not "
         "modelled; replay's 1 KiB text buffer is not exceeded (display < 900 characters)",
-        "duplicate specs for the same argument (merged by add_arg_spec) are not generated",
+        "scripts: 'matching' = integer-class values congruent modulo 2^(8*size) (signedness is not judged; a Lua number "
+        "above 2^53 is the nearest double), floats bit-identical at the spec's size, strings byte-identical (Python: "
+        "\"<invalid value>\" exactly when the bytes are not UTF-8), char a one-byte string, struct the text "
+        "\"struct: NAME{}\"; retval = the first return value spec; at record time floats are the placeholder \"<float>\"",
     ]
 
 
